@@ -29,9 +29,9 @@ pub fn b64(u: &str, p: &str) -> String {
     base64::engine::general_purpose::STANDARD.encode(format!("{u}:{p}"))
 }
 
-pub const HEADERS: [&str; 12] = [
+pub const HEADERS: [&str; 14] = [
     "absent", "valid-user1", "valid-user2", "wrong-user", "wrong-password", "valid-trailing-space",
-    "lowercase-scheme", "two-spaces", "bearer", "bad-base64", "non-utf8", "empty",
+    "lowercase-scheme", "two-spaces", "bearer", "bad-base64", "non-utf8", "empty", "valid-user2-colon-suffix", "valid-user2-password-prefix",
 ];
 
 pub fn header_value(kind: &str) -> Option<Vec<u8>> {
@@ -50,6 +50,9 @@ pub fn header_value(kind: &str) -> Option<Vec<u8>> {
         "bad-base64" => b"Basic !!!".to_vec(),
         "non-utf8" => b"Basic \xff\xfe\x80".to_vec(),
         "empty" => b"".to_vec(),
+        // the right user with a password that merely starts with / is a prefix of the right one
+        "valid-user2-colon-suffix" => format!("Basic {}", b64(USERS[1].0, &format!("{}:x", USERS[1].1))).into_bytes(),
+        "valid-user2-password-prefix" => format!("Basic {}", b64(USERS[1].0, &USERS[1].1[..USERS[1].1.len() - 1])).into_bytes(),
         _ => unreachable!(),
     })
 }
